@@ -190,7 +190,7 @@ def run_session(tag, cfg, seed, ops_filter=None, redeliver=True, setup_only=Fals
     if setup_only:
         s.ok = True
         return s
-    ops = ["ping"] * 6 + ["up"] * 3 + ["down"] * 5 + ["burst", "idle", "id0", "aux", "hs", "badip", "downsoon", "upsmall", "rawop", "refrag", "refrag", "dupsoon", "dupsoon", "c2c", "c2c", "reborn", "lazyoff"]
+    ops = ["ping"] * 6 + ["up"] * 3 + ["down"] * 5 + ["burst", "idle", "id0", "aux", "hs", "badip", "downsoon", "upsmall", "rawop", "refrag", "refrag", "dupsoon", "dupsoon", "c2c", "c2c", "reborn", "lazyoff", "reflect", "reflect"]
     if cfg.get("sendfaults"):
         ops += ["sendfault"] * 3
     if s.fwd is not None:
@@ -231,6 +231,20 @@ def mk_frame(s, mc, direction, rng, size=None):
     if direction == "down":
         return proto.make_frame(s.server_tun_ip, mc.tun_ip, ident, size, style, rng)
     return proto.make_frame(mc.tun_ip, s.server_tun_ip, ident, size, style, rng)
+
+
+def _resolver_replies_to_all(s, rng):
+    k = s.sim.k
+    got, s.fwd.got[:] = list(s.fwd.got), []
+    for (fsrc, fd) in got:
+        try:
+            m = proto.parse_msg(fd)
+            body = proto.build_answer_raw(m.id, m.qd[0][0], m.qd[0][1], [] if rng.random() < 0.3 else [(m.qd[0][1], bytes(rng.getrandbits(8) for _ in range(4)))],
+                                          rcode=rng.choice([0, 0, 3]))
+        except (proto.ParseError, IndexError, ValueError):
+            continue
+        k.transmit(("127.0.0.1", BIND_PORT), fsrc, body)
+        k.run(k.now + 2000)
 
 
 def do_op(s, mc, op, rng):
@@ -348,6 +362,35 @@ def do_op(s, mc, op, rng):
                 body = struct.pack(">H", rng.choice([0, 7, rng.randrange(65536)])) + body[2:]      # an id nobody used (or 0)
             k.transmit(("127.0.0.1", BIND_PORT), fsrc, body)
             k.run(k.now + 3000)
+    elif op == "reflect":
+        # Datagrams with the QR bit set arriving on the server's port: one of the server's own answers bounced back by a
+        # misconfigured host, a "response" whose question section spells a tunnel request, a delegation check marked as a
+        # response.  A response is not a query: nothing is owed for it and nothing may be sent because of it.
+        src_ip = rng.choice([None, None, ("fd53::7:9" if ":" in mc.ip else "10.77.0.9")])
+        sport = rng.choice([None, None, 53, 40777])
+        for _ in range(rng.randint(1, 3)):
+            w = rng.randrange(5)
+            d = None
+            if w == 0:
+                mine = [x[3] for x in mc.inbox[-6:] if x[3][:3] != proto.RAW_MAGIC and len(x[3]) > 12 and (x[3][2] & 0x80)]
+                if mine:
+                    d = bytes(rng.choice(mine))
+            if d is None:
+                if w <= 1:
+                    labels, qt = mc.ping_labels(), mc.qtype
+                elif w == 2:
+                    labels, qt = proto.msg_version(mc.domain, mc.new_cmc()), mc.qtype
+                elif w == 3:
+                    labels, qt = rng.choice([mc.domain, [b"xyz"] + mc.domain]), proto.T_NS
+                else:
+                    labels, qt = proto.msg_downcheck(mc.domain, b"t", 1, mc.new_cmc()), mc.qtype
+                d = bytearray(proto.build_query(mc.new_id(), labels, qt, edns0=rng.random() < 0.3))
+                d[2] |= rng.choice([0x80, 0x84, 0x81])
+                d[3] |= rng.choice([0x00, 0x80, 0x83])
+                d = bytes(d)
+            mc.send_raw_dgram(d, sport, src_ip)
+            k.run(k.now + rng.choice([10, 3000, 30000]))
+        mc.drain()
     elif op == "idle":
         k.run(k.now + rng.choice([100000, 1000000, 5000000]))
         mc.drain()
@@ -385,6 +428,9 @@ def do_op(s, mc, op, rng):
                 room -= l + 1
             if labels:
                 mc.ask(labels + mc.domain, proto.T_NS, timeout_us=300000)
+        if s.fwd is not None and rng.random() < 0.6:
+            # the local DNS server replies to whatever it was handed in the meantime
+            _resolver_replies_to_all(s, rng)
     elif op == "hs":
         which = rng.randrange(6)
         if which == 0:
